@@ -40,12 +40,13 @@ async def check_case(case, rec, ctx):
         if kind == "build":
             check_serve_health(PROPERTY, stage, where)
             rc = H.returncode_class(stage.result.returncode)
-            must_not_clean = rc != "OK" or not stage.config.get("do_clean", True)
+            must_not_clean = (rc != "OK" or not stage.config.get("do_clean", True)
+                              or bool(stage.config.get("targets")))
             if must_not_clean and (files or removed_dirs):
                 raise Violation(
                     f"{PROPERTY}/cleaned-although-it-must-not",
                     f"{where}: return code {rc}, do_clean={stage.config.get('do_clean', True)}, "
-                    f"yet deleted {files} {removed_dirs}",
+                    f"targets={stage.config.get('targets')}, yet deleted {files} {removed_dirs}",
                 )
             C.check_deletions(PROPERTY, where, before, after, ledger,
                               static=C.static_paths(stage.result.tables))
